@@ -524,7 +524,9 @@ func (n *node) Paths(path string) []string {
 func (n *node) addChoice(ch Node) error {
 	name := ch.Name()
 	for _, cn := range n.choices {
-		if cn.Name() == name {
+		// (at the root of a model set the choices of different modules
+		// meet: the same name in another namespace is another choice)
+		if cn.Name() == name && cn.Namespace() == ch.Namespace() {
 			return errors.New("redefinition of name " + name)
 		}
 	}
